@@ -159,6 +159,18 @@ def r6_cleanup_order(chk: Check):
     r = rm[0]
     flag = [n for n in g.live if n.kind == "stmt" and isinstance(n.ast, ast.Assign) and src(n.ast.targets[0]) == "self.cleaned"]
     chk.require(bool(flag) and all(g.must_pass(x, g.exit, [r]) for x in flag), chk.fkey(f, "pid removal on every path"), "once cleanup has started, the pid file must be removed on every path", loc)
+    # the first call really cleans: the guard flag starts False (constructor), is only ever set to True here, and under `not cleaned` the removal happens
+    from ..dataflow import walk_table
+
+    outs = walk_table(g, g.entry, lambda n: ("cleaned", True) if src(n.ast) == "self.cleaned" else None, {"cleaned": False},
+                      lambda n: ["rm"] if n is r else [], lambda n: "exit" if n is g.exit else ("raise" if n is g.raise_ else None))
+    ok = bool(outs) and all("rm" in o.events for o in outs if o.end == "exit")
+    init = tree.func("run", "TaskRunner.__init__")
+    inits = [v for t, v, s_ in attr_stores(init.node) if src(t) == "self.cleaned"]
+    ok = ok and len(inits) == 1 and isinstance(inits[0], ast.Constant) and inits[0].value is False
+    others = [(ff.qual, src(s_)) for ff in tree.nontest_funcs() if ff.module is f.module for t, v, s_ in attr_stores(ff.node)
+              if src(t) == "self.cleaned" and not (ff is init) and not (ff is f and isinstance(v, ast.Constant) and v.value is True)]
+    chk.require(ok and not others, chk.fkey(f, "first call cleans"), f"the first call of cleanup must remove the pid file: the `cleaned` flag must start False, be tested negatively, and only be set (to True) by cleanup itself {others or ''}", loc)
     before = [n for n in g.live if n is not r and r.id in g.reachable(n) and any(not is_logging_call(c) for c in n.calls())]
     chk.require(not before, chk.fkey(f, "pid removal first"),
                 f"cleanup calls {[b.label()[:40] for b in before]} before removing the pid file: if that call raises (it is not protected), the cleaned flag is already set and "
